@@ -77,6 +77,28 @@ Definition validate (H : bytes -> bytes) (ttl_ns now_ns : Z) (cookie : bytes) (t
   | _ => false
   end.
 
+(* A history on one CookieManager.  Its state is (secret, ttl); the secret is fixed inside H, so
+   the threaded state is the lifetime only — Validate and Generate neither read nor write anything else. *)
+Inductive cm_op :=
+| CGen (now_s : N) (t : tuple)
+| CVal (now_ns : Z) (cookie : bytes) (t : tuple)
+| CSetTTL (ttl_ns : Z).                   (* harness seam: cm.ttl = ... *)
+Inductive cm_out := CCookie (c : bytes) | CVerdict (b : bool) | CNone.
+Definition cm_step (H : bytes -> bytes) (ttl : Z) (o : cm_op) : Z * cm_out :=
+  match o with
+  | CGen now t => (ttl, CCookie (generate H now t))
+  | CVal now c t => (ttl, CVerdict (validate H ttl now c t))
+  | CSetTTL n => (n, CNone)
+  end.
+Fixpoint cm_run (H : bytes -> bytes) (ttl : Z) (ops : list cm_op) : Z * list cm_out :=
+  match ops with
+  | [] => (ttl, [])
+  | o :: r => let '(ttl1, x) := cm_step H ttl o in let '(ttl2, xs) := cm_run H ttl1 r in (ttl2, x :: xs)
+  end.
+(* the lifetime in effect after a history: the last CSetTTL, whatever was generated or validated *)
+Definition ttl_after (ttl : Z) (ops : list cm_op) : Z :=
+  fold_left (fun a o => match o with CSetTTL n => n | _ => a end) ops ttl.
+
 (* ------------------------------------------------------------------ tags.go *)
 Record tags := { t_cookie : bytes; t_hostuniq : bytes; t_maxpayload : N; t_nraw : N }.
 Definition tags0 : tags := {| t_cookie := []; t_hostuniq := []; t_maxpayload := 0; t_nraw := 0 |}.
